@@ -20,3 +20,15 @@ Theorem C01_kafka_C01_dissect  :
                 r_server (dissect T client server t) = Returned e2.
 Proof. exact (kafka_C01_dissect ). Qed.
 
+
+(* the premise holds of the tables regenerated from the compiled dissector on this run *)
+Require Import V.gen.KafkaSchemas V.Kafka.KafkaImplTables.
+
+Theorem C01_kafka_C01_impl_tables_plain : tables_plain impl_tables.
+Proof. exact (impl_tables_are_plain ). Qed.
+
+Theorem C01_kafka_C01_impl_dissect  :
+  forall client server t,
+  exists e1 e2, r_client (dissect impl_tables client server t) = Returned e1 /\
+                r_server (dissect impl_tables client server t) = Returned e2.
+Proof. exact (kafka_C01_impl_dissect ). Qed.
